@@ -64,6 +64,8 @@ def main():
     ap.add_argument('--every', action='store_true', help='run all seven checks, not only the expected ones')
     ap.add_argument('--json', help='write results to this file')
     ap.add_argument('--par', type=int, default=1, help='patches handled concurrently')
+    ap.add_argument('--green-runs', type=int, default=16000,
+                    help='random runs per check for patches expected to stay green (they go through all seven checks)')
     ap.add_argument('--merge', action='store_true', help='with --json: keep the entries of patches not run now')
     ap.add_argument('--only', help='substring filter on patch paths')
     args = ap.parse_args()
@@ -118,8 +120,10 @@ def main():
     import concurrent.futures
     if args.every:
         items = [(p_, ALL) for p_, q_ in items]
-    with concurrent.futures.ThreadPoolExecutor(max_workers=max(1, args.par)) as ex:
-        futs = [ex.submit(run_one, p_, q_, args.tier, args.runs, args.tests) for p_, q_ in items]
+    ex = concurrent.futures.ThreadPoolExecutor(max_workers=max(1, args.par))
+    futs = [ex.submit(run_one, p_, q_, args.tier,
+                      args.runs or (args.green_runs if p_ in expect_green else None), args.tests)
+            for p_, q_ in items]
     for (patch, props), fut in zip(items, futs):
         r = fut.result()
         caught = [p for p, c in r.get('checks', {}).items() if c['exit'] == 1]
